@@ -11,6 +11,7 @@ import (
 	"database/sql"
 	"errors"
 	"fmt"
+	"hash/fnv"
 	"os"
 	"path/filepath"
 	"runtime"
@@ -614,7 +615,7 @@ func main() {
 		return
 	}
 	nproc := 16
-	budget := 70 * time.Second
+	budget := 50 * time.Second
 	if args.Tier == "thorough" {
 		budget = 9 * time.Minute
 	}
@@ -673,6 +674,12 @@ func main() {
 	run.Finish(cov)
 }
 
+func hashStr(s string) uint32 {
+	h := fnv.New32a()
+	h.Write([]byte(s))
+	return h.Sum32()
+}
+
 func child(run *mc.Run, args mc.Args, ps []Program) {
 	out := mc.NewShardOut()
 	var deadline time.Time
@@ -691,7 +698,7 @@ func child(run *mc.Run, args mc.Args, ps []Program) {
 	for pi, p := range ps {
 		for k := 0; k < sub; k++ {
 			item++
-			if item%args.Shards != args.Shard {
+			if int(hashStr(fmt.Sprintf("%s/%d", p, k))%uint32(args.Shards)) != args.Shard {
 				continue
 			}
 			p := p
